@@ -330,8 +330,16 @@ fn case(r: &mut Rng, res: &mut CaseResult) {
             // wait until the I/O thread reports that much queued (minus what the
             // transport still accepted before it stalled)
             h.wait(Duration::from_millis(50), |st| st.budget == 0);
+            // from here on the transport takes nothing more, so what has trickled out is
+            // final; only reports of the I/O thread made after this moment are looked at
+            // (an older one may predate the write of those bytes, and counting them twice
+            // would let the last small frame slip): a harmless server heartbeat makes the
+            // thread report anew
+            h.with(|st| st.budget = 0);
             let trickled = h.out_len() - base;
-            let ok = wait_outbuf(io_thread, expected_bytes.saturating_sub(trickled), W);
+            let seen = io_thread.map(|t| hooks::peek_events(t).len()).unwrap_or(0);
+            h.inject(wire::enc_raw(wire::T_HEARTBEAT, 0, &[]));
+            let ok = wait_outbuf_from(io_thread, seen, expected_bytes.saturating_sub(trickled), W);
             if !ok {
                 res.inconclusive(format!("could not establish that {} bytes were queued before the close (transport stalled at {})", expected_bytes, base));
             }
@@ -523,6 +531,11 @@ fn queued_len(ch: u16, issued: &[Op]) -> usize {
 
 /// Wait until the I/O thread has reported `bytes` (or more) in its output buffer.
 fn wait_outbuf(t: Option<std::thread::ThreadId>, bytes: usize, timeout: Duration) -> bool {
+    wait_outbuf_from(t, 0, bytes, timeout)
+}
+
+/// The same, looking only at reports from index `from` of the thread's event log on.
+fn wait_outbuf_from(t: Option<std::thread::ThreadId>, from: usize, bytes: usize, timeout: Duration) -> bool {
     let t = match t {
         Some(t) => t,
         None => return false,
@@ -530,7 +543,7 @@ fn wait_outbuf(t: Option<std::thread::ThreadId>, bytes: usize, timeout: Duration
     let deadline = std::time::Instant::now() + timeout;
     loop {
         let evs = hooks::peek_events(t);
-        if let Some(Ev::BatchEnd { outbuf_len, .. }) = evs.iter().rev().find(|e| matches!(e, Ev::BatchEnd { .. })) {
+        if let Some(Ev::BatchEnd { outbuf_len, .. }) = evs.iter().skip(from).rev().find(|e| matches!(e, Ev::BatchEnd { .. })) {
             if *outbuf_len >= bytes {
                 return true;
             }
